@@ -754,7 +754,8 @@ def history_with_adaptation(family, seed, pattern, nparams, findings, stats):
 # configurations
 # --------------------------------------------------------------------------
 
-def build(family, rng, nparams, adapt_steps=0, pattern='AR', successive=None, seed=7, same_bounds=False):
+def build(family, rng, nparams, adapt_steps=0, pattern='AR', successive=None, seed=7, same_bounds=False,
+          offset=0.0):
     """A real proposal instance (adaptive ones after `adapt_steps` real forced steps) together
     with its parameter names and domains."""
     cls, kind, lo, hi = F.FAMILIES[family]
@@ -778,6 +779,9 @@ def build(family, rng, nparams, adapt_steps=0, pattern='AR', successive=None, se
     doms = {p: F.domain_for(kind, rng, i) for i, p in enumerate(names)}
     if same_bounds:                      # equal bounds, unequal scales: cache keys of the parameters coincide
         doms = {p: doms[names[0]] for p in names}
+    if offset and kind == 'box':         # bounds far from the origin (a time, a distance in pc, ...)
+        d0 = doms[names[0]]
+        doms[names[0]] = (d0[0] + offset, d0[1] + offset)
     p = F.make(family, names, doms, rng, successive=successive)
     return p, names, doms, kind
 
@@ -871,6 +875,39 @@ def eigen_law(family, p0, x, N, findings, stats, every=40, on_boundary=False, ce
         scale = float(p0.eigvals[ind])
         if not scale > 0:
             continue
+        try:
+            _eigen_direction(family, p0, x, N, findings, stats, every, on_boundary, cells, per, which, ind, scale,
+                             names, probs_seen, cs)
+        except _PdfRaised as e:
+            findings.append(('BoundedEigenvector:isclose-band-not-in-reported-density' if 'bounded' in family
+                             else '%s:pdf-raises' % family,
+                             '%s: pdf of a jump the proposal itself produced (from %r, eigenvector %d) raised: %s' % (
+                                 family, x, ind, str(e)[:400]),
+                             dict(describe(family, p0, x), kind='pdf-raises', ind=ind, error=str(e)[:600])))
+    if len(probs_seen) >= 2:
+        stats['direction_prob_checks'] = stats.get('direction_prob_checks', 0) + 1
+        if not all(numpy.array_equal(probs_seen[0], q_) for q_ in probs_seen[1:]):
+            findings.append(('%s:direction-probabilities' % family,
+                             '%s: the probabilities of the eigen-directions differ between jumps from the same '
+                             'state: %r' % (family, [list(map(float, q_)) for q_ in probs_seen]),
+                             dict(describe(family, p0, x), kind='direction-probabilities')))
+    return cs
+
+
+class _PdfRaised(Exception):
+    pass
+
+
+def _rpdf(obj, a, b):
+    try:
+        return float(obj.pdf(a, b))
+    except ValueError as e:
+        raise _PdfRaised(str(e))
+
+
+def _eigen_direction(family, p0, x, N, findings, stats, every, on_boundary, cells, per, which, ind, scale,
+                     names, probs_seen, cs):
+    if True:
         p = copy.deepcopy(p0)
         plan = EigenPlan(ind, zgrid(N))
         p._verif_gen = Gen(plan)
@@ -898,7 +935,7 @@ def eigen_law(family, p0, x, N, findings, stats, every=40, on_boundary=False, ce
                     if len(probe_out) < 6:
                         probe_out.append(out)
             if k % every == 0 and len(some) < 40:
-                some.append((float(p._dx), float(p.pdf(out, x)), float(p.pdf(x, out)), out))
+                some.append((float(p._dx), _rpdf(p, out, x), _rpdf(p, x, out), out))
             k += 1
         stats['jumps'] = stats.get('jumps', 0) + len(steps)
         stats['grid_points'] = stats.get('grid_points', 0) + N
@@ -907,7 +944,7 @@ def eigen_law(family, p0, x, N, findings, stats, every=40, on_boundary=False, ce
         # jumps that ended outside the declared box (accepted through the `isclose` band of
         # `__contains__`): the density reported for them must at least be a number
         for o_ in probe_out:
-            v_ = float(p.pdf(o_, x))
+            v_ = _rpdf(p, o_, x)
             stats['pdf_evaluations'] = stats.get('pdf_evaluations', 0) + 1
             if not math.isfinite(v_):
                 findings.append(('BoundedEigenvector:nan-density-outside-box',
@@ -919,50 +956,85 @@ def eigen_law(family, p0, x, N, findings, stats, every=40, on_boundary=False, ce
         if nacc < 200:
             stats['skipped_low_acceptance'] = stats.get('skipped_low_acceptance', 0) + 1
             stats['skipped_low_acceptance:' + family] = stats.get('skipped_low_acceptance:' + family, 0) + 1
-            continue
+            return
         steps = numpy.sort(numpy.array(steps))
         _note_disp(p0, stats, ('eig', ind), which, steps)
         a, b = float(steps[0]), float(steps[-1])
-        M = cells * per
-        ts = numpy.linspace(a, b, M + 1)
-        ts[0], ts[-1] = a, b
+        # integration segments: the accepted range, cut where the line leaves the *declared* box
+        # (a density need not be smooth across a face of its domain)
+        cuts = [a, b]
+        if lob is not None:
+            xv = numpy.array([float(x[k_]) for k_ in names])
+            vec = (numpy.array([float(some[0][3][k_]) for k_ in names]) - xv) / some[0][0] if some and some[0][0] != 0 \
+                else None
+            if vec is not None:
+                for i_ in range(len(names)):
+                    if abs(vec[i_]) > 1e-300:
+                        for bnd in (lob[i_], hib[i_]):
+                            t_ = (bnd - xv[i_]) / vec[i_]
+                            if a + 1e-9 * (b - a) < t_ < b - 1e-9 * (b - a):
+                                cuts.append(float(t_))
+        cuts = sorted(set(cuts))
+        segs = []
+        for c0, c1 in zip(cuts[:-1], cuts[1:]):
+            nc = cells if (c1 - c0) > 0.25 * (b - a) else 2
+            segs.append((c0, c1, nc))
         q = copy.deepcopy(p0)
         pl = EigenPlan(ind, [])
         q._verif_gen = Gen(pl)
-        vals = numpy.empty(M + 1)
         ok = True
-        for m_, t in enumerate(ts):
-            pl.fixed = float(t) / scale
-            q._verif_gen.calls = []
-            q._verif_gen.limit = 50
-            try:
-                o = q.jump(x)
-            except (Runaway, Exhausted):
-                ok = False
+        edges, cum, qerr = [a], [0.0], [0.0]
+        seg_idx = []
+        allfinite = True
+        for c0, c1, nc in segs:
+            M = nc * per
+            ts = numpy.linspace(c0, c1, M + 1)
+            d_ = 1e-9 * (c1 - c0)
+            ts[0], ts[-1] = c0 + d_, c1 - d_          # stay on this side of a face
+            vals = numpy.empty(M + 1)
+            for m_, t in enumerate(ts):
+                pl.fixed = float(t) / scale
+                q._verif_gen.calls = []
+                q._verif_gen.limit = 50
+                try:
+                    o = q.jump(x)
+                except (Runaway, Exhausted):
+                    ok = False
+                    break
+                vals[m_] = _rpdf(q, o, x)
+            stats['pdf_evaluations'] = stats.get('pdf_evaluations', 0) + M + 1
+            if not ok:
                 break
-            vals[m_] = float(q.pdf(o, x))
+            if not numpy.isfinite(vals).all():
+                allfinite = False
+                break
+            cs_, cc_ = simpson_cum(vals, (c1 - c0) / M, per)
+            base_c, base_e = cum[-1], qerr[-1]
+            seg_idx.append((len(edges) - 1, len(edges) - 1 + nc))
+            for k_ in range(1, nc + 1):
+                edges.append(float(ts[k_ * per]) if k_ < nc else c1)
+                cum.append(base_c + float(cs_[k_]))
+                qerr.append(base_e + abs(float(cs_[k_]) - float(cc_[k_])))
         q._verif_gen.limit = None
-        stats['pdf_evaluations'] = stats.get('pdf_evaluations', 0) + M + 1
         if not ok:
             stats['machinery_trouble'] = stats.get('machinery_trouble', 0) + 1
             stats.setdefault('trouble', []).append('%s: a step inside the accepted range was rejected' % family)
-            continue
-        if not numpy.isfinite(vals).all():
+            return
+        if not allfinite:
             findings.append((('BoundedEigenvector:nan-density-outside-box' if n_out else '%s:nonfinite' % family),
                              '%s: reported pdf of the most recent jump is not finite for a step inside the accepted '
                              'range (eigenvector %d, from %r; %d accepted jumps ended outside the box, by up to %.3g)' % (
                                  family, ind, x, n_out, max_out),
                              dict(describe(family, p0, x), kind='nonfinite', ind=ind, **band)))
-            continue
-        h = (b - a) / M
-        cum, cumc = simpson_cum(vals, h, per)
+            return
+        cum = numpy.array(cum)
+        qerr = numpy.array(qerr)
         C = float(cum[-1])
-        qerr = numpy.abs(cum - cumc)
         # [a, b] carries all accepted grid points; the law puts at most 2/(nacc-1) outside
         cs.append((ind, C, 2.0 * qerr[-1] / C + 3.0 / (nacc - 2) + 1e-9, band))
         worst = None
-        for kk in range(cells + 1):
-            edge = ts[kk * per]
+        for kk in range(len(edges)):
+            edge = edges[kk]
             emp = float(numpy.searchsorted(steps, edge, side='right')) / nacc
             r = cum[kk] / C
             tol = 5.0 / (nacc - 2) + 2.0 / N + 2.0 * (qerr[kk] + qerr[-1]) / C
@@ -970,12 +1042,32 @@ def eigen_law(family, p0, x, N, findings, stats, every=40, on_boundary=False, ce
             if not abs(emp - r) <= tol:
                 if worst is None or abs(emp - r) - tol > worst[0]:
                     worst = (abs(emp - r) - tol, float(edge), emp, float(r), tol)
+        explained = False
+        if worst is not None and n_out:
+            # is the mismatch explained by the jumps accepted outside the box alone?  Compare the
+            # laws conditional on ending inside the declared box.
+            i0, i1 = max(seg_idx, key=lambda se: edges[se[1]] - edges[se[0]])
+            n0 = int(numpy.searchsorted(steps, edges[i0], side='left'))
+            nin = int(numpy.searchsorted(steps, edges[i1], side='right')) - n0
+            Cin = float(cum[i1] - cum[i0])
+            explained = nin > 50 and Cin > 0
+            for kk in range(i0, i1 + 1):
+                if not explained:
+                    break
+                emp = (float(numpy.searchsorted(steps, edges[kk], side='right')) - n0) / nin
+                r = float(cum[kk] - cum[i0]) / Cin
+                tol = 6.0 / (nin - 2) + 2.0 / N + 2.0 * float(qerr[kk] - qerr[i0] + qerr[i1] - qerr[i0]) / Cin
+                if not abs(emp - r) <= tol:
+                    explained = False
         if worst is not None:
             _law_mismatch(family, p0, stats, findings, ('eig', ind), (
-                             '%s:law' % family,
+                             ('BoundedEigenvector:isclose-band-not-in-reported-density' if explained else '%s:law' % family),
                              '%s: along eigenvector %d from %r the reported density of the most recent jump '
-                             'integrates to %.5f up to step %.4f, the jump law gives %.5f (tolerance %.2g)' % (
-                                 family, ind, x, worst[3], worst[1], worst[2], worst[4]),
+                             'integrates to %.5f up to step %.4f, the jump law gives %.5f (tolerance %.2g)%s' % (
+                                 family, ind, x, worst[3], worst[1], worst[2], worst[4],
+                                 ('; %d of %d accepted jumps ended outside the box, by up to %.3g: __contains__ accepts '
+                                  'an isclose band of rtol*|bound| beyond the faces, the reported density is normalised '
+                                  'on the chord inside the box' % (n_out, nacc, max_out)) if n_out else ''),
                              dict(describe(family, p0, x), kind='law-eigen', ind=ind, N=N, step=worst[1],
                                   reported_cdf=worst[3], measured_cdf=worst[2], tolerance=worst[4], total=C, **band)))
         # the reverse: density reported for x' -> x right after x -> x' must be the density the
@@ -991,8 +1083,8 @@ def eigen_law(family, p0, x, N, findings, stats, every=40, on_boundary=False, ce
             try:
                 back = q.jump(out)
             except (Exhausted, Runaway, ValueError):
-                continue
-            want = float(q.pdf(back, out))
+                return
+            want = _rpdf(q, back, out)
             stats['reverse_checks'] = stats.get('reverse_checks', 0) + 1
             if p0.symmetric and not abs(fw - rv) <= 1e-12 * max(fw, rv):
                 findings.append(('%s:symmetric' % family,
@@ -1009,14 +1101,72 @@ def eigen_law(family, p0, x, N, findings, stats, every=40, on_boundary=False, ce
                                       to={k_: float(v_) for k_, v_ in out.items()},
                                       reverse_reported=rv, reverse_jump_reports=want)))
                 break
-    if len(probs_seen) >= 2:
-        stats['direction_prob_checks'] = stats.get('direction_prob_checks', 0) + 1
-        if not all(numpy.array_equal(probs_seen[0], q_) for q_ in probs_seen[1:]):
-            findings.append(('%s:direction-probabilities' % family,
-                             '%s: the probabilities of the eigen-directions differ between jumps from the same '
-                             'state: %r' % (family, [list(map(float, q_)) for q_ in probs_seen]),
-                             dict(describe(family, p0, x), kind='direction-probabilities')))
-    return cs
+
+
+def eigen_normalisers(family, p0, x, y, cs, cs2, findings, stats):
+    """reported / law may be any constant per eigen-direction (a jump and its reverse use the same
+    direction), but it has to be the same from both from-points."""
+    for i, c, r, b in cs:
+        for i2, c2, r2, b2 in cs2:
+            if i2 == i:
+                band = {'accepted_outside_box': b.get('accepted_outside_box', 0) + b2.get('accepted_outside_box', 0),
+                        'max_excess': max(b.get('max_excess', 0.0), b2.get('max_excess', 0.0))}
+                normaliser_check(family, p0, [(dict(x, eigenvector=i), (c, r)), (dict(y, eigenvector=i), (c2, r2))],
+                                 findings, stats, band)
+
+
+def beigen_probes(family, N, findings, stats):
+    """Two fixed configurations of the bounded eigenvector families.
+
+    (a) bounds far from the origin (a time stamp, say): the law of the jumps against the reported
+        density, as everywhere else;
+    (b) a start exactly on a corner of the box: a ladder of ever smaller steps; whichever the
+        proposal accepts must have a finite reported density."""
+    cls = F.FAMILIES[family][0]
+
+    def make(bnds, cov):
+        names = list(bnds)
+        if 'adaptive' in family:
+            return cls(names, bnds, 10, cov0=numpy.array(cov))
+        return cls(names, bnds, cov=numpy.array(cov))
+
+    # (a)
+    p0 = make({'t': (1000.0, 1001.0), 'y': (-1.0, 1.0)}, [[1.0, 0.0], [0.0, 0.25]])
+    x = {'t': 1000.5, 'y': 0.1}
+    cs = eigen_law(family, p0, x, N, findings, stats, every=15, cells=16, per=8)
+    y = {'t': 1000.2, 'y': -0.4}
+    cs2 = eigen_law(family, p0, y, N, findings, stats, every=15, cells=16, per=8, which=1)
+    eigen_normalisers(family, p0, x, y, cs, cs2, findings, stats)
+    # (b)
+    p0 = make({'a': (0.27, 1.5), 'b': (0.69, 2.0)}, [[0.5, 0.2], [0.2, 0.8]])
+    corner = {'a': 0.27, 'b': 0.69}
+    for ind in range(2):
+        scale = float(p0.eigvals[ind])
+        for k in range(1, 11):
+            for sign in (1.0, -1.0):
+                q = copy.deepcopy(p0)
+                pl = EigenPlan(ind, [])
+                pl.fixed = sign * 10.0 ** (-k)
+                q._verif_gen = Gen(pl)
+                q._verif_gen.limit = 3
+                try:
+                    out = q.jump(corner)
+                except Runaway:
+                    continue
+                stats['corner_probes_accepted'] = stats.get('corner_probes_accepted', 0) + 1
+                try:
+                    v = float(q.pdf(out, corner))
+                except ValueError as e:
+                    v = 'raised ' + str(e)[:200]
+                if not (isinstance(v, float) and math.isfinite(v)):
+                    findings.append(('BoundedEigenvector:nan-density-outside-box',
+                                     '%s(%r, cov=[[0.5,0.2],[0.2,0.8]]): jump from the corner %r with step %.1e*%.4g along '
+                                     'eigenvector %d is accepted and returns %r (outside the box), pdf(x\'|x) = %r' % (
+                                         family, {'a': (0.27, 1.5), 'b': (0.69, 2.0)}, corner, pl.fixed, scale, ind,
+                                         {k_: float(w_) for k_, w_ in out.items()}, v),
+                                     dict(describe(family, p0, corner), kind='nan-density-outside-box', ind=ind,
+                                          step=pl.fixed * scale)))
+                    return
 
 
 # --------------------------------------------------------------------------
@@ -1328,12 +1478,15 @@ def run_unit(unit):
                 b0 = make_birth(fam, rng, unit['nparams'])
                 birth_law(fam, b0, unit['N'], findings, stats)
                 birth_history(fam, b0, rng, findings, stats)
+            elif unit['kind'] == 'beigen-probe':
+                beigen_probes(fam, unit['N'], findings, stats)
             elif unit['kind'] == 'adaptive-history':
                 history_with_adaptation(fam, unit['seed'], unit['pattern'], unit['nparams'], findings, stats)
             else:
                 p0, names, doms, kind = build(fam, rng, unit['nparams'], unit.get('adapt_steps', 0),
                                               unit.get('pattern', 'AR'), unit.get('successive'),
-                                              seed=unit['seed'] % 997 + 5, same_bounds=unit.get('same_bounds', False))
+                                              seed=unit['seed'] % 997 + 5, same_bounds=unit.get('same_bounds', False),
+                                              offset=unit.get('offset', 0.0))
                 x = point(kind, doms, names, rng, unit.get('where', 'inside'))
                 if fam in PERPARAM:
                     cx = perparam_law(fam, p0, x, unit['N'], findings, stats, {'which': 0})
@@ -1354,11 +1507,7 @@ def run_unit(unit):
                     y = point(kind, doms, names, rng)
                     cs2 = eigen_law(fam, p0, y, unit['N'], findings, stats, every=unit.get('every', 40),
                                     cells=cells, per=per, which=1)
-                    ests = [(dict(x, eigenvector=i), (c, r)) for i, c, r, b in cs] + \
-                           [(dict(y, eigenvector=i), (c, r)) for i, c, r, b in cs2]
-                    band = {'accepted_outside_box': sum(b.get('accepted_outside_box', 0) for _, _, _, b in cs + cs2),
-                            'max_excess': max([b.get('max_excess', 0.0) for _, _, _, b in cs + cs2] + [0.0])}
-                    normaliser_check(fam, p0, ests, findings, stats, band)
+                    eigen_normalisers(fam, p0, x, y, cs, cs2, findings, stats)
                 elif fam in SPHERE:
                     if unit.get('where') == 'lower':
                         x = {names[0]: x[names[0]], names[1]: 1e-3}      # next to the pole
@@ -1401,7 +1550,7 @@ def plan_units(seed, tier, full=False):
         cfgs = [(bigN, j) for j in range(nbig)] + [(smallN, j + nbig) for j in range(nsmall)] \
             + [(hugeN, j + nbig + nsmall) for j in range(nhuge)]
         if fam in EIGEN and 'bounded' in fam:         # 0.15 ms per draw (numpy.isclose in __contains__)
-            cfgs = cfgs[:5] if quick else cfgs[:14] + cfgs[-1:]
+            cfgs = cfgs[:4] if quick else cfgs[:14] + cfgs[-1:]
         for N, j in cfgs:
             u = dict(kind='proposal', family=fam, seed=rng.randrange(1 << 30), N=N,
                      nparams=lo + (j % (hi - lo + 1)), where=wheres[j % 4])
@@ -1418,7 +1567,7 @@ def plan_units(seed, tier, full=False):
                 u['N'] = min(N, 200000) if N >= 20000 else N
                 u['every'] = 40 if N >= 20000 else 10
                 if 'bounded' in fam:
-                    u['N'] = min(u['N'], 6000 if quick else 60000)
+                    u['N'] = min(u['N'], (3000 if j < 2 else 1500) if quick else 60000)
                     u['every'] = 15 if quick else 60
                     u['nodes'] = (16, 8) if quick else (32, 16)
             if fam in SPHERE:
@@ -1427,6 +1576,15 @@ def plan_units(seed, tier, full=False):
                     u['m'] = 11
             if N >= 1000000:
                 u['history'] = False
+            units.append(u)
+        if fam in EIGEN and 'bounded' in fam:
+            units.append(dict(kind='beigen-probe', family=fam, seed=1, N=3000 if quick else 20000))
+        if kind == 'box':
+            # bounds far from the origin: absolute width of any relative tolerance grows with |bound|
+            u = dict(kind='proposal', family=fam, seed=rng.randrange(1 << 30), N=bigN if fam not in EIGEN else 3000,
+                     nparams=hi if fam in EIGEN else lo, where='inside', offset=1000.0, adapt_steps=0)
+            if fam in EIGEN:
+                u['every'], u['nodes'] = 15, (16, 8)
             units.append(u)
         if adaptive and fam not in EIGEN and fam not in SPHERE:
             for j in range(2 if quick else 12):
